@@ -922,12 +922,34 @@ fn port_free(p: u16) -> bool {
 fn pick_ports(k: u64) -> Option<(u16, u16)> {
     let base = 10000 + (std::process::id() % 220) as u16 * 100;
     for j in 0..50u64 {
-        let a = base + (((k + j) * 2) % 100) as u16;
+        let a = base + (((k + j) * 2) % 20) as u16;
         if port_free(a) && port_free(a + 1) {
             return Some((a, a + 1));
         }
     }
     None
+}
+
+/// A listener on a port of this process's block (20..99): independent of the state of the
+/// machine's ephemeral port range, which loopback-heavy tests running in parallel can exhaust.
+async fn block_listener() -> Result<tokio::net::TcpListener, String> {
+    static NEXT: std::sync::atomic::AtomicU32 = std::sync::atomic::AtomicU32::new(0);
+    let base = 10000 + (std::process::id() % 220) as u16 * 100;
+    let mut last = String::new();
+    for _ in 0..160 {
+        let n = NEXT.fetch_add(1, Ordering::Relaxed);
+        let p = base + 20 + (n % 80) as u16;
+        match tokio::net::TcpListener::bind(("127.0.0.1", p)).await {
+            Ok(l) => return Ok(l),
+            Err(e) => last = format!("127.0.0.1:{}: {}", p, e),
+        }
+    }
+    Err(last)
+}
+
+/// close with RST instead of FIN: no TIME-WAIT socket is left behind by the harness
+fn no_time_wait(s: &TcpStream) {
+    let _ = socket2::SockRef::from(s).set_linger(Some(Duration::ZERO));
 }
 
 #[derive(Default)]
@@ -1020,6 +1042,7 @@ async fn spk_connect(cfg: &SpkCfg, idx: usize, bgp_port: u16, step: usize) -> Re
             }
         };
         let _ = stream.set_nodelay(true);
+        no_time_wait(&stream);
         let my_port = stream.local_addr().map(|a| a.port()).unwrap_or(0);
         let (daemon_ip, daemon_port) = stream.peer_addr().map(|a| (a.ip(), a.port())).unwrap_or((dst.ip(), bgp_port));
         let mut plain = PeerCodec::new();
@@ -1329,7 +1352,7 @@ async fn e2e_script(rng: &mut Rng, ps: &mut Parsers, prm: &E2eParams, k: u64) ->
     macro_rules! add_station {
         ($policy:expr, $quiescent:expr) => {{
             let policy: i32 = $policy;
-            match tokio::net::TcpListener::bind(("127.0.0.1", 0)).await {
+            match block_listener().await {
                 Err(e) => out.problem = Some(format!("station listener: {}", e)),
                 Ok(l) => {
                     let port = l.local_addr().map(|a| a.port()).unwrap_or(0);
@@ -1340,6 +1363,7 @@ async fn e2e_script(rng: &mut Rng, ps: &mut Parsers, prm: &E2eParams, k: u64) ->
                     } else {
                         match tokio::time::timeout(Duration::from_secs(5), l.accept()).await {
                             Ok(Ok((mut s, _))) => {
+                                no_time_wait(&s);
                                 let buf = Arc::new(Mutex::new((Vec::new(), false)));
                                 let b2 = buf.clone();
                                 tokio::spawn(async move {
@@ -1510,6 +1534,11 @@ async fn e2e_script(rng: &mut Rng, ps: &mut Parsers, prm: &E2eParams, k: u64) ->
             }
         } else if r < up_w + down_w {
             let kind = *rng.pick(&[CloseKind::Drop, CloseKind::Notify, CloseKind::Provoke]);
+            if prm.churn && up[i].is_some() && rng.chance(1, 2) {
+                // a station whose snapshot phase overlaps the end of this session: the PeerDown
+                // event may reach its serve loop although it never sent a PeerUp for the peer
+                add_station!(rng.range(1, 5) as i32, false);
+            }
             close_session!(i, kind);
         } else if r < up_w + down_w + 12 {
             let q = rng.chance(1, 2);
@@ -1781,7 +1810,9 @@ fn judge_station_c19(rep: &mut Report, ps: &mut Parsers, out: &Outcome, sti: usi
             StMsg::PeerUp { hdr, local16, lport, rport, sent, recv } => {
                 let addr = hdr.addr();
                 let sess = out.sessions.iter().position(|s| out.cfgs[s.spk].addr == addr && s.my_port == *rport);
-                let from_global = sess.is_some_and(|si| out.sessions[si].up_step < st.connect_step);
+                // reconstructed from Global (Peer::bmp_peer_up) or a live BgpEvent::PeerUp?  The session was established
+                // before the station connected and nothing but PeerUps precede it (heuristic; used for counters / witnesses only)
+                let from_global = sess.is_some_and(|si| out.sessions[si].up_step < st.connect_step) && st.msgs[..mi].iter().all(|(_, m)| matches!(m, StMsg::Initiation | StMsg::PeerUp { .. }));
                 let label = if from_global { "from-global" } else { "live" };
                 if up.contains_key(&addr) {
                     rep.count("unjudged:e2e-duplicate-peer-up");
@@ -1805,13 +1836,13 @@ fn judge_station_c19(rep: &mut Report, ps: &mut Parsers, out: &Outcome, sti: usi
                     let ds = open_diff(sent, &s.daemon_open);
                     let dr = open_diff(recv, &s.my_open);
                     if !ds.is_empty() {
-                        fail = Some(finding("peer-up", &format!("sent-open-differs/{}", label), "the Sent OPEN in the PeerUp is not the OPEN the daemon sent on this session", format!("PeerUp says {}; differing: {}", open_str(sent), ds.join("; ")), &[]));
+                        fail = Some(finding("peer-up", "sent-open-differs", "the Sent OPEN in the PeerUp is not the OPEN the daemon sent on this session", format!("PeerUp ({}) says {}; differing: {}", label, open_str(sent), ds.join("; ")), &[]));
                     } else if !dr.is_empty() {
-                        fail = Some(finding("peer-up", &format!("received-open-differs/{}", label), "the Received OPEN in the PeerUp is not the OPEN the peer sent on this session", format!("PeerUp says {}; differing: {}", open_str(recv), dr.join("; ")), &[]));
+                        fail = Some(finding("peer-up", "received-open-differs", "the Received OPEN in the PeerUp is not the OPEN the peer sent on this session", format!("PeerUp ({}) says {}; differing: {}", label, open_str(recv), dr.join("; ")), &[]));
                     }
                 }
                 match fail {
-                    Some(f) => report(rep, f, ctx(vec![("peer", Json::s(cfg.addr.to_string())), ("daemon_open_on_wire", Json::s(open_str(&s.daemon_open))), ("peer_open_on_wire", Json::s(open_str(&s.my_open)))]), hseed),
+                    Some(f) => report(rep, f, ctx(vec![("peer", Json::s(cfg.addr.to_string())), ("peer_up_origin", Json::s(label)), ("daemon_open_on_wire", Json::s(open_str(&s.daemon_open))), ("peer_open_on_wire", Json::s(open_str(&s.my_open)))]), hseed),
                     None => {
                         rep.count(&format!("e2e:peer-up/{}", label));
                         rep.count(if addr.is_ipv6() { "e2e:peer-up/v6" } else { "e2e:peer-up/v4" });
@@ -2224,65 +2255,85 @@ fn judge_station_c18(rep: &mut Report, out: &Outcome, sti: usize, hseed: u64) {
 
 /// `send_peer_up` / `send_peer_down` (hence `track_peer_up/down`) driven directly
 /// with arbitrary event orders over a loopback `Framed`, as the serve loop does
-/// for BgpEvent::PeerUp / PeerDown.
-async fn c18_direct_case(rng: &mut Rng, ps: &mut Parsers) -> Result<(Vec<String>, Vec<String>, Vec<String>), String> {
-    let l = tokio::net::TcpListener::bind(("127.0.0.1", 0)).await.map_err(|e| e.to_string())?;
+/// for BgpEvent::PeerUp / PeerDown.  Many cases share one TCP connection (each
+/// starts with a fresh tracking set and an Initiation message as delimiter).
+type DirectCase = (Vec<String>, Vec<String>, Vec<String>);
+
+async fn c18_direct_batch(rng: &mut Rng, ps: &mut Parsers, ncases: usize) -> Result<Vec<DirectCase>, String> {
+    let l = block_listener().await?;
     let port = l.local_addr().map_err(|e| e.to_string())?.port();
     let (c, a) = tokio::join!(TcpStream::connect(("127.0.0.1", port)), l.accept());
-    let stream = c.map_err(|e| e.to_string())?;
-    let (mut station, _) = a.map_err(|e| e.to_string())?;
+    let stream = c.map_err(|e| format!("connect: {}", e))?;
+    let (mut station, _) = a.map_err(|e| format!("accept: {}", e))?;
+    no_time_wait(&station);
+    // the station reads while the cases are written
+    let reader = tokio::spawn(async move {
+        let mut bytes = Vec::new();
+        let _ = tokio::time::timeout(Duration::from_secs(30), station.read_to_end(&mut bytes)).await;
+        bytes
+    });
     let mut lines = Framed::new(stream, bmp::BmpCodec::new());
-    let mut sent: FnvHashSet<IpAddr> = FnvHashSet::default();
-    let npeers = rng.range(1, 5) as usize;
-    let peers: Vec<IpAddr> = (0..npeers).map(|i| if rng.chance(1, 3) { IpAddr::V6(Ipv6Addr::new(0x2001, 0xdb8, 0, 0, 0, 0, 0, 1 + i as u16)) } else { IpAddr::V4(Ipv4Addr::new(192, 0, 2, 1 + i as u8)) }).collect();
     let open = |asn: u32| bgp::Message::Open(Open { as_number: asn, holdtime: HoldTime::new(90).unwrap(), router_id: asn, capability: vec![Capability::FourOctetAsNumber(asn)] });
-    let n = rng.range(3, 40) as usize;
-    let mut events = Vec::new();
-    let mut model_open: BTreeSet<IpAddr> = BTreeSet::new();
-    let mut expect: Vec<String> = Vec::new();
-    for _ in 0..n {
-        let p = *rng.pick(&peers);
-        let asn = 64512 + rng.below(100) as u32;
-        let hdr = bmp::PerPeerHeader::new(0, asn, Ipv4Addr::from(asn), 0, p, 1);
-        if rng.chance(9, 20) {
-            events.push(format!("up {}", p));
-            let m = bmp::Message::PeerUp { header: hdr, local_addr: if p.is_ipv6() { IpAddr::V6(Ipv6Addr::LOCALHOST) } else { IpAddr::V4(Ipv4Addr::LOCALHOST) }, local_port: 179, remote_port: 40000, local_open: open(65000), remote_open: open(asn) };
-            if !send_peer_up(&mut sent, &mut lines, p, &m).await {
-                return Err("send_peer_up reported a broken connection".into());
-            }
-            model_open.insert(p);
-            expect.push(format!("up {}", p));
-        } else {
-            events.push(format!("down {}", p));
-            let reason = match rng.below(3) {
-                0 => bmp::PeerDownReason::RemoteUnexpected,
-                1 => bmp::PeerDownReason::LocalFsm(0),
-                _ => bmp::PeerDownReason::RemoteNotification(bgp::Message::Notification(gen_notification(rng))),
-            };
-            let m = bmp::Message::PeerDown { header: hdr, reason };
-            if !send_peer_down(&mut sent, &mut lines, p, &m).await {
-                return Err("send_peer_down reported a broken connection".into());
-            }
-            // the statement: reported only for peers whose peer-up was reported (and not yet closed)
-            if model_open.remove(&p) {
-                expect.push(format!("down {}", p));
+    let mut cases: Vec<(Vec<String>, Vec<String>)> = Vec::new();
+    for _ in 0..ncases {
+        if lines.send(&bmp::Message::Initiation(vec![(0, b"case".to_vec())])).await.is_err() {
+            return Err("delimiter could not be sent".into());
+        }
+        let mut sent: FnvHashSet<IpAddr> = FnvHashSet::default();
+        let npeers = rng.range(1, 5) as usize;
+        let peers: Vec<IpAddr> = (0..npeers).map(|i| if rng.chance(1, 3) { IpAddr::V6(Ipv6Addr::new(0x2001, 0xdb8, 0, 0, 0, 0, 0, 1 + i as u16)) } else { IpAddr::V4(Ipv4Addr::new(192, 0, 2, 1 + i as u8)) }).collect();
+        let n = rng.range(3, 40) as usize;
+        let mut events = Vec::new();
+        let mut model_open: BTreeSet<IpAddr> = BTreeSet::new();
+        let mut expect: Vec<String> = Vec::new();
+        for _ in 0..n {
+            let p = *rng.pick(&peers);
+            let asn = 64512 + rng.below(100) as u32;
+            let hdr = bmp::PerPeerHeader::new(0, asn, Ipv4Addr::from(asn), 0, p, 1);
+            if rng.chance(9, 20) {
+                events.push(format!("up {}", p));
+                let m = bmp::Message::PeerUp { header: hdr, local_addr: if p.is_ipv6() { IpAddr::V6(Ipv6Addr::LOCALHOST) } else { IpAddr::V4(Ipv4Addr::LOCALHOST) }, local_port: 179, remote_port: 40000, local_open: open(65000), remote_open: open(asn) };
+                if !send_peer_up(&mut sent, &mut lines, p, &m).await {
+                    return Err("send_peer_up reported a broken connection".into());
+                }
+                model_open.insert(p);
+                expect.push(format!("up {}", p));
+            } else {
+                events.push(format!("down {}", p));
+                let reason = match rng.below(3) {
+                    0 => bmp::PeerDownReason::RemoteUnexpected,
+                    1 => bmp::PeerDownReason::LocalFsm(0),
+                    _ => bmp::PeerDownReason::RemoteNotification(bgp::Message::Notification(gen_notification(rng))),
+                };
+                let m = bmp::Message::PeerDown { header: hdr, reason };
+                if !send_peer_down(&mut sent, &mut lines, p, &m).await {
+                    return Err("send_peer_down reported a broken connection".into());
+                }
+                // the statement: reported only for peers whose peer-up was reported (and not yet closed)
+                if model_open.remove(&p) {
+                    expect.push(format!("down {}", p));
+                }
             }
         }
+        cases.push((events, expect));
     }
     drop(lines);
-    let mut bytes = Vec::new();
-    let _ = tokio::time::timeout(Duration::from_secs(5), station.read_to_end(&mut bytes)).await;
-    let mut got = Vec::new();
+    let bytes = reader.await.map_err(|e| e.to_string())?;
     let recs = read_bmp(&bytes).map_err(|(c, d)| format!("stream not well-formed: {} {}", c, d))?;
+    let mut got: Vec<Vec<String>> = Vec::new();
     for r in recs {
         match read_bmp_msg(ps, r.typ, r.body) {
-            Ok(StMsg::PeerUp { hdr, .. }) => got.push(format!("up {}", hdr.addr())),
-            Ok(StMsg::PeerDown { hdr, .. }) => got.push(format!("down {}", hdr.addr())),
-            Ok(_) => got.push("other".into()),
+            Ok(StMsg::Initiation) => got.push(Vec::new()),
+            Ok(StMsg::PeerUp { hdr, .. }) => got.last_mut().ok_or("no delimiter")?.push(format!("up {}", hdr.addr())),
+            Ok(StMsg::PeerDown { hdr, .. }) => got.last_mut().ok_or("no delimiter")?.push(format!("down {}", hdr.addr())),
+            Ok(_) => got.last_mut().ok_or("no delimiter")?.push("other".into()),
             Err((k, c, d)) => return Err(format!("message not well-formed: {} {} {}", k, c, d)),
         }
     }
-    Ok((events, expect, got))
+    if got.len() != cases.len() {
+        return Err(format!("{} delimiters read for {} cases", got.len(), cases.len()));
+    }
+    Ok(cases.into_iter().zip(got).map(|((e, x), g)| (e, x, g)).collect())
 }
 
 #[test]
@@ -2324,52 +2375,60 @@ fn c18_peer_tracking() {
     match tokio::runtime::Builder::new_current_thread().enable_all().build() {
         Err(_) => rep.inconclusive("cannot build a tokio runtime"),
         Ok(rt) => {
-            for i in 0..params.n(1500, 30000) {
+            let total = params.n(1500, 30000) as usize;
+            let mut done = 0usize;
+            let mut first = true;
+            while done < total {
                 if rep.elapsed() > rep.params.budget_s * 0.3 {
                     break;
                 }
                 let cseed = rng.next_u64();
-                match rt.block_on(c18_direct_case(&mut Rng::new(cseed), &mut ps)) {
+                let batch = 100.min(total - done);
+                done += batch;
+                match rt.block_on(c18_direct_batch(&mut Rng::new(cseed), &mut ps, batch)) {
                     Err(e) => {
-                        rep.count("unjudged:direct-case-harness-problem");
-                        if i == 0 {
-                            rep.inconclusive(&format!("direct case: {}", e));
+                        rep.count("unjudged:direct-batch-harness-problem");
+                        if first {
+                            rep.inconclusive(&format!("direct cases: {}", e));
                         }
                     }
-                    Ok((events, expect, got)) => {
-                        rep.evals(got.len() as u64);
-                        rep.count("c18:direct-cases");
-                        let suppressed = events.iter().filter(|e| e.starts_with("down")).count() - expect.iter().filter(|e| e.starts_with("down")).count();
-                        rep.count_n("c18:direct-peer-down-events-for-peers-without-open-peer-up", suppressed as u64);
-                        rep.count_n("c18:direct-peer-down-forwarded", expect.iter().filter(|e| e.starts_with("down")).count() as u64);
-                        if got == expect {
-                            if suppressed > 0 {
-                                rep.nontrivial(fnv64(events.join(",").as_bytes()));
-                            }
-                        } else {
-                            // which clause?
-                            let mut open: BTreeSet<&str> = BTreeSet::new();
-                            let mut sig = "C18/peer-tracking/wire-differs-from-events";
-                            for g in &got {
-                                if let Some(a) = g.strip_prefix("up ") {
-                                    open.insert(a);
-                                } else if let Some(a) = g.strip_prefix("down ") {
-                                    if !open.remove(a) {
-                                        sig = "C18/peer-tracking/peer-down-without-peer-up";
-                                        break;
+                    Ok(cases) => {
+                        for (events, expect, got) in cases {
+                            rep.evals(got.len() as u64);
+                            rep.count("c18:direct-cases");
+                            let suppressed = events.iter().filter(|e| e.starts_with("down")).count() - expect.iter().filter(|e| e.starts_with("down")).count();
+                            rep.count_n("c18:direct-peer-down-events-for-peers-without-open-peer-up", suppressed as u64);
+                            rep.count_n("c18:direct-peer-down-forwarded", expect.iter().filter(|e| e.starts_with("down")).count() as u64);
+                            if got == expect {
+                                if suppressed > 0 {
+                                    rep.nontrivial(fnv64(events.join(",").as_bytes()));
+                                }
+                            } else {
+                                // which clause?
+                                let mut open: BTreeSet<&str> = BTreeSet::new();
+                                let mut sig = "C18/peer-tracking/wire-differs-from-events";
+                                for g in &got {
+                                    if let Some(a) = g.strip_prefix("up ") {
+                                        open.insert(a);
+                                    } else if let Some(a) = g.strip_prefix("down ") {
+                                        if !open.remove(a) {
+                                            sig = "C18/peer-tracking/peer-down-without-peer-up";
+                                            break;
+                                        }
                                     }
                                 }
+                                rep.violation(sig, "the PeerUp / PeerDown messages on the wire are not the ones the event sequence allows (PeerDown only for a peer whose PeerUp is open)", Json::obj(vec![("events", Json::strs(events)), ("expected_on_wire", Json::strs(expect)), ("on_wire", Json::strs(got)), ("batch_seed", Json::Int(cseed as i128))]));
                             }
-                            rep.violation(sig, "the PeerUp / PeerDown messages on the wire are not the ones the event sequence allows (PeerDown only for a peer whose PeerUp is open)", Json::obj(vec![("events", Json::strs(events)), ("expected_on_wire", Json::strs(expect)), ("on_wire", Json::strs(got)), ("case_seed", Json::Int(cseed as i128))]));
                         }
                     }
                 }
+                first = false;
             }
         }
     }
 
     // ---- the serve loop itself: real sessions going up and down, stations subscribing at random points
-    let n = params.n(40, 800);
+    let n = params.n(60, 1000);
     let mut problems = 0u64;
     for k in 0..n {
         if !rep.in_budget() {
